@@ -24,6 +24,11 @@
     during the history carries an mtime that no earlier version carried"; the version the initial
     entry was made from counts as an earlier version), with `InitF` (the initial entry carries
     the mtime of the version it was made from, and is not a stale parse stamped as current).
+  * several source paths (`C18_key_projection`, `C18_key_frame`, `C18_fresh_keyed`): the entry-name
+    function is injective on paths (`hinj`; for the code: sha1 of the path exactly as given, checked
+    by the harness as correspondence c18.entry-name); `C18_key_frame_needs_injective` shows the frame
+    property failing without it.  Events of a family are addressed to one path; the version check
+    (an operation on the whole directory) is not an event of a family.
   * `C18_version_purge`: "no process of another scanner version stores afterwards" is
     `onlyStoresOf V`; the loads concerned are those that start afterwards.
 -/
@@ -258,6 +263,77 @@ theorem C18_fresh_partial (s0 : State) (h0 : InitF s0) (evs : List Ev)
     r.vStart ≤ r.data ∧ r.data ≤ r.vEnd :=
   ⟨(run_invF s0 evs h0.toInit.inv h0.invF hdist).rets p r h,
    (C18_not_from_future s0 h0.toInit evs p r h).1⟩
+
+/-! ### several source paths: what `load(k)` returns depends only on the events addressed to `k`
+
+  Hypothesis beyond the wording, stated explicitly: the entry-name function is injective on paths
+  (`hinj`).  For the real code this is "`_get_filename` hashes the path exactly as given" — checked on
+  every run by the harness (correspondence c18.entry-name: a store of spelling p leaves exactly one
+  entry, named sha1(p)) — plus collision-freeness of sha1.  Independently of this model, the harness
+  judges the statement on the real CacheStore with several files under look-alike spellings. -/
+
+/-- With an injective entry-name function the family restricted to path `k` IS the single-key model
+    run on the events addressed to `k`. -/
+theorem C18_key_projection {Path : Type} [DecidableEq Path] (name : Path → Nat)
+    (hinj : ∀ a b, name a = name b → a = b) (K : Family) (evs : List (Path × Ev)) (k : Path) :
+    krun name K evs (name k) = run (K (name k)) (eventsOf k evs) := by
+  induction evs generalizing K with
+  | nil => rfl
+  | cons e es ih =>
+    have hstep : krun name K (e :: es) = krun name (kstep name K e) es := rfl
+    rw [hstep, ih]
+    by_cases h : e.1 = k
+    · have : eventsOf k (e :: es) = e.2 :: eventsOf k es := by simp [eventsOf, h]
+      rw [this]
+      simp [kstep, upd, h, run, List.foldl]
+    · have hn : name k ≠ name e.1 := fun hh => h (hinj _ _ hh).symm
+      have : eventsOf k (e :: es) = eventsOf k es := by simp [eventsOf, h]
+      rw [this]
+      simp [kstep, upd, hn]
+
+/-- Frame: operations and source modifications addressed to other paths never change anything
+    about `k'` (its entry, what a load of it returns). -/
+theorem C18_key_frame {Path : Type} [DecidableEq Path] (name : Path → Nat)
+    (hinj : ∀ a b, name a = name b → a = b) (K : Family) (evs : List (Path × Ev)) (k' : Path)
+    (hother : ∀ e ∈ evs, e.1 ≠ k') :
+    krun name K evs (name k') = K (name k') := by
+  rw [C18_key_projection name hinj K evs k']
+  have : eventsOf k' evs = [] := by
+    simp only [eventsOf, List.map_eq_nil_iff, List.filter_eq_nil_iff]
+    intro e he
+    simpa using hother e he
+  rw [this]; rfl
+
+/-- The main clause for several paths: a load of `k` returns the parse of a version of `k`'s own
+    source that was current during the load, whatever is done to the other paths (under the
+    hypothesis of `C18_fresh_partial` on the history of `k` alone). -/
+theorem C18_fresh_keyed {Path : Type} [DecidableEq Path] (name : Path → Nat)
+    (hinj : ∀ a b, name a = name b → a = b) (K : Family) (evs : List (Path × Ev)) (k : Path)
+    (h0 : InitF (K (name k))) (hdist : histDistinctMtimes (K (name k)) (eventsOf k evs) = true)
+    (p : Nat) (r : Ret) (h : ((krun name K evs (name k)).procs p).pc = .done (some r)) :
+    r.vStart ≤ r.data ∧ r.data ≤ r.vEnd := by
+  rw [C18_key_projection name hinj K evs k] at h
+  exact C18_fresh_partial _ h0 _ hdist p r h
+
+/-- Injectivity is needed: when two paths share an entry name, a store addressed to path 0 makes a
+    load addressed to path 1 return a value although nothing was ever stored for path 1 (the frame
+    property fails; with an injective name the same history leaves path 1 untouched). -/
+theorem C18_key_frame_needs_injective :
+    ((krun (fun _ : Nat => 0) (fun _ => witnessInit)
+        ([(0, Ev.spawn 0 .store 7)] ++ List.replicate 9 (0, Ev.step 0) ++
+         [(1, Ev.spawn 1 .load 7)] ++ List.replicate 4 (1, Ev.step 1)) 0).procs 1).pc
+      = .done (some ⟨1, 7, 2, 5, 5, 1, 1⟩)
+    ∧ ((krun (fun k : Nat => k) (fun _ => witnessInit)
+        ([(0, Ev.spawn 0 .store 7)] ++ List.replicate 9 (0, Ev.step 0) ++
+         [(1, Ev.spawn 1 .load 7)] ++ List.replicate 4 (1, Ev.step 1)) 1).procs 1).pc
+      = .done none := by
+  decide
+
+example : ∀ a b : Nat, (fun k : Nat => k) a = (fun k : Nat => k) b → a = b := fun _ _ h => h
+
+example :
+    eventsOf (1 : Nat) [(0, Ev.spawn 0 .store 7), (1, Ev.tick), (0, Ev.step 0), (1, Ev.modify true)]
+      = [.tick, .modify true] := by decide
 
 /-- A crash changes nothing in the file system: it only stops the process. -/
 theorem C18_crash_only_kills (s : State) (p : Nat) :
